@@ -1389,9 +1389,12 @@ class SVG:
         # Simplify things that simplify in isolation
         self.apply_style_attributes(inplace=True)
         self.resolve_nested_svgs(inplace=True)
+        # instantiate <use> before any shape is cached: syncing a cached shape
+        # drops attributes that are redundant *where the shape sits*, and a <use>
+        # target sits in a different inheritance context than its instances
+        self.resolve_use(inplace=True)
         self.shapes_to_paths(inplace=True)
         self.expand_shorthand(inplace=True)
-        self.resolve_use(inplace=True)
 
         # Simplify things that do not simplify in isolation
         self.simplify(inplace=True)
